@@ -57,6 +57,10 @@ def tasks(tier, seed):
             add(4, K, comp, wit=False, hist="ops0")
             if tier == "thorough":
                 add(4, K, comp, wit=False, hist="ops1")
+    # seven players with almost everything known (more than 64 known coalitions): flat bounds for the few unknown coalitions
+    unk7 = [3, 5, 24, 67, 96, 7, 56]
+    for comp in c01_sound.COMPUTERS:
+        add(7, [S for S in F.extras(7) if S not in unk7], comp, wit=False)
     fam5, _ = F.family(5, tier, seed)
     for K in F.sample(fam5, 6 if tier == "quick" else 40, seed, "c02ops5"):
         add(5, K, "superadditive_cached", wit=False, hist="ops0")
